@@ -8,6 +8,7 @@ import AgeModel.File
 import AgeModel.Exec.FormatExec
 import AgeModel.Exec.StreamExec
 import AgeModel.Armor
+import AgeModel.CliIdent
 namespace AgeModel
 namespace Exec
 namespace File
@@ -181,6 +182,12 @@ def handle (op : String) (args : List String) : Option String :=
       let (r, log) := id.unwrapLog concrete ss
       s!"{unwrapRes r} kdf={log}"
     | _, _ => "bad-args"
+  | "clilazy", [ask, maxwf, st] =>   -- cmd/age LazyScryptIdentity.Unwrap: ask = "none" | hex passphrase
+    some <| match (if ask = "none" then some none else (unhex ask).map some), nat? maxwf, parseStanzas st with
+    | some ask, some m, some ss =>
+      let (r, prompted) := CliIdent.lazyUnwrap concrete ask m ss
+      s!"{unwrapRes r} prompted={prompted}"
+    | _, _, _ => "bad-args"
   | _, _ => none
 
 end File
